@@ -4,7 +4,7 @@ into /verif/seeded/Cnn-mK/ with a meta.json"""
 import json, shutil, sys, glob, os, re
 from pathlib import Path
 V = Path(__file__).resolve().parent.parent
-for rf in sorted(glob.glob('/tmp/seedres/C*-m*.json')):
+for rf in sorted(glob.glob('/tmp/seedres/C*-*m*.json')):
     name = Path(rf).stem            # C01-m1
     pid, mk = name.split('-')
     if mk.startswith('r2'):
